@@ -188,9 +188,9 @@ func codecCheck() (cases int, v *drv.Violation) {
 
 func init() {
 	Registry["C17"] = func(t Tier) *Check {
-		d := 5
+		d := 6
 		if t == Thorough {
-			d = 6
+			d = 7
 		}
 		u := []ct.Comp{ct.P}
 		sc := &engine.Scenario{
